@@ -623,7 +623,13 @@ class NP:
         self.newaxis = None
 
     def __getattr__(self, k):
-        return getattr(numpy, k)
+        f = getattr(numpy, k)
+        if callable(f) and not isinstance(f, type) and not isinstance(f, numpy.ufunc):
+            def wrapped(*a, **kw):
+                return _as_sa(f(*a, **kw))
+            wrapped.__name__ = k
+            return wrapped
+        return f
 
     # ---- constructors
     def _filled(self, shape, val, dtype=None):
@@ -863,6 +869,19 @@ class NP:
 
     def less_equal(self, a, b):
         return numpy.less_equal(a, b)
+
+
+def _as_sa(r):
+    """object-dtype results of forwarded NumPy functions become SA views"""
+    if isinstance(r, numpy.ndarray):
+        if r.dtype == object and not isinstance(r, SA):
+            return r.view(SA)
+        return r
+    if isinstance(r, tuple):
+        return tuple(_as_sa(x) for x in r)
+    if isinstance(r, list):
+        return [_as_sa(x) for x in r]
+    return r
 
 
 def _shape(s):
